@@ -13,6 +13,7 @@ Init == S \in UNION {InitStates(c, "mc", <<>>) : c \in Range(Family)}
 \* simulate_until_max_time: events strictly before the horizon
 \* simulate_until_max_customers: events while the method's counter is below the target
 Running == IF S.cfg.stop = "time" THEN MinDate(S) < S.cfg.T
+           ELSE IF S.cfg.stop = "deadlock" THEN ~S.dl /\ MinDate(S) < S.cfg.T
            ELSE P!Counter(S.cfg, S) < S.cfg.maxc /\ MinDate(S) < INF
 
 Next == /\ Ok(S)
@@ -52,6 +53,8 @@ Step_C06 == [][P!F_C06_step(S.cfg, S, S') = {}]_S
 Step_C07 == [][P!F_C07_step(S.cfg, S, S') = {}]_S
 Step_C08 == [][P!F_C08_step(S.cfg, S, S') = {}]_S
 Step_C09 == [][P!F_C09_step(S.cfg, S, S', S.rt) = {}]_S
+Inv_C18 == P!F_C18_inv(S.cfg, S, S.dg) = {}
+Step_C18 == [][P!F_C18_step(S.cfg, S, S') = {}]_S
 Inv_C17 == P!F_C17_inv(S.cfg, S, S.gb) = {}
 Step_C17 == [][P!F_C17_step(S.cfg, S, S') = {}]_S
 Step_C10 == [][P!F_C10_step(S.cfg, S, S') = {}]_S
